@@ -76,3 +76,21 @@ def dense_formula_text(f):
 
 def sig_sx(sig):
     return '(' + ' '.join('(%d %s)' % (t, fml.val_sx(v)) for t, v in sig) + ')'
+
+
+def parse_rhoz(line, t0):
+    """'RHOZ v v v | EXACT 1' -> {tick: value}"""
+    vals = line.split('|')[0].split()[1:]
+    return {t0 + i: fml.parse_val(v) for i, v in enumerate(vals)}
+
+
+def compare_ticks(spec, out, lo, hi):
+    """None if the sample list `out` denotes, at every integer tick of [lo, hi], the value of the tick semantics"""
+    t = int(math.ceil(lo))
+    while t <= hi:
+        if t in spec:
+            a, b = spec[t], den(out, t)
+            if a != b:
+                return {'t': t * SCALE, 'expected': a, 'observed': b}
+        t += 1
+    return None
